@@ -122,43 +122,54 @@ macro_rules! terminal {
         }
     }};
 }
-fn build(stack: &str, term: &str, takes: &[usize], lims: &[Option<NonZeroUsize>], sh: &Sh) -> PollFn {
+macro_rules! pipeline { ($co:expr, $stack:expr, $term:expr, $takes:expr, $lims:expr, $sh:expr) => {{
+    let (stack, term, takes, lims, sh): (&str, &str, &[usize], &[Option<NonZeroUsize>], &Sh) = ($stack, $term, $takes, $lims, $sh);
     let take = takes.first().copied().unwrap_or(0); let take2 = takes.get(1).copied().unwrap_or(0);
     let lim = lims.first().copied().flatten(); let lim2 = lims.get(1).copied().flatten();
-    let src = Src(Child::new(0, sh));
     if term == "rcol" {
         // collect into Result<Vec<_>, E>: the map closure of the stack is the fallible one
-        return match stack {
-            "map" => fut_fn(src.co().map(rmap_cl::<It>(sh)).collect::<Result<Vec<_>, u64>>(), show_res),
-            "map.lim" => fut_fn(src.co().map(rmap_cl::<It>(sh)).limit(lim).collect::<Result<Vec<_>, u64>>(), show_res),
-            "lim.map" => fut_fn(src.co().limit(lim).map(rmap_cl::<It>(sh)).collect::<Result<Vec<_>, u64>>(), show_res),
-            "enum.map" => fut_fn(src.co().enumerate().map(rmap_cl::<(usize, It)>(sh)).collect::<Result<Vec<_>, u64>>(), show_res),
-            "map.take" => fut_fn(src.co().map(rmap_cl::<It>(sh)).take(take).collect::<Result<Vec<_>, u64>>(), show_res),
-            "lim.enum.map" => fut_fn(src.co().limit(lim).enumerate().map(rmap_cl::<(usize, It)>(sh)).collect::<Result<Vec<_>, u64>>(), show_res),
+        match stack {
+            "map" => fut_fn($co.map(rmap_cl::<It>(sh)).collect::<Result<Vec<_>, u64>>(), show_res),
+            "map.lim" => fut_fn($co.map(rmap_cl::<It>(sh)).limit(lim).collect::<Result<Vec<_>, u64>>(), show_res),
+            "lim.map" => fut_fn($co.limit(lim).map(rmap_cl::<It>(sh)).collect::<Result<Vec<_>, u64>>(), show_res),
+            "enum.map" => fut_fn($co.enumerate().map(rmap_cl::<(usize, It)>(sh)).collect::<Result<Vec<_>, u64>>(), show_res),
+            "map.take" => fut_fn($co.map(rmap_cl::<It>(sh)).take(take).collect::<Result<Vec<_>, u64>>(), show_res),
+            "lim.enum.map" => fut_fn($co.limit(lim).enumerate().map(rmap_cl::<(usize, It)>(sh)).collect::<Result<Vec<_>, u64>>(), show_res),
             s => panic!("rcol stack {s}"),
-        };
-    }
-    match stack {
-        "" => terminal!(term, src.co(), sh),
-        "lim" => terminal!(term, src.co().limit(lim), sh),
-        "take" => terminal!(term, src.co().take(take), sh),
-        "enum" => terminal!(term, src.co().enumerate(), sh),
-        "map" => terminal!(term, src.co().map(map_cl::<It>(sh)), sh),
-        "map.lim" => terminal!(term, src.co().map(map_cl::<It>(sh)).limit(lim), sh),
-        "lim.map" => terminal!(term, src.co().limit(lim).map(map_cl::<It>(sh)), sh),
-        "take.lim" => terminal!(term, src.co().take(take).limit(lim), sh),
-        "lim.take" => terminal!(term, src.co().limit(lim).take(take), sh),
-        "enum.map" => terminal!(term, src.co().enumerate().map(map_cl::<(usize, It)>(sh)), sh),
-        "map.take" => terminal!(term, src.co().map(map_cl::<It>(sh)).take(take), sh),
-        "enum.take" => terminal!(term, src.co().enumerate().take(take), sh),
-        "take.enum" => terminal!(term, src.co().take(take).enumerate(), sh),
-        "lim.enum.map" => terminal!(term, src.co().limit(lim).enumerate().map(map_cl::<(usize, It)>(sh)), sh),
-        "take.take" => terminal!(term, src.co().take(take).take(take2), sh),
-        "take.map.take" => terminal!(term, src.co().take(take).map(map_cl::<It>(sh)).take(take2), sh),
-        "take.enum.take" => terminal!(term, src.co().take(take).enumerate().take(take2), sh),
-        "lim.lim" => terminal!(term, src.co().limit(lim).limit(lim2), sh),
-        "lim.map.lim" => terminal!(term, src.co().limit(lim).map(map_cl::<It>(sh)).limit(lim2), sh),
+        }
+    } else { match stack {
+        "" => terminal!(term, $co, sh),
+        "lim" => terminal!(term, $co.limit(lim), sh),
+        "take" => terminal!(term, $co.take(take), sh),
+        "enum" => terminal!(term, $co.enumerate(), sh),
+        "map" => terminal!(term, $co.map(map_cl::<It>(sh)), sh),
+        "map.lim" => terminal!(term, $co.map(map_cl::<It>(sh)).limit(lim), sh),
+        "lim.map" => terminal!(term, $co.limit(lim).map(map_cl::<It>(sh)), sh),
+        "take.lim" => terminal!(term, $co.take(take).limit(lim), sh),
+        "lim.take" => terminal!(term, $co.limit(lim).take(take), sh),
+        "enum.map" => terminal!(term, $co.enumerate().map(map_cl::<(usize, It)>(sh)), sh),
+        "map.take" => terminal!(term, $co.map(map_cl::<It>(sh)).take(take), sh),
+        "enum.take" => terminal!(term, $co.enumerate().take(take), sh),
+        "take.enum" => terminal!(term, $co.take(take).enumerate(), sh),
+        "lim.enum.map" => terminal!(term, $co.limit(lim).enumerate().map(map_cl::<(usize, It)>(sh)), sh),
+        "take.take" => terminal!(term, $co.take(take).take(take2), sh),
+        "take.map.take" => terminal!(term, $co.take(take).map(map_cl::<It>(sh)).take(take2), sh),
+        "take.enum.take" => terminal!(term, $co.take(take).enumerate().take(take2), sh),
+        "lim.lim" => terminal!(term, $co.limit(lim).limit(lim2), sh),
+        "lim.map.lim" => terminal!(term, $co.limit(lim).map(map_cl::<It>(sh)).limit(lim2), sh),
         s => panic!("stack {s}"),
+    } }
+}} }
+/// the pipeline over a scripted source stream (`src.co()`), or - `cov:` cases - over `Vec::into_co_stream()` holding the same items, which must
+/// behave exactly like a source stream that has every item ready (the driver compares the two runs)
+fn build(vsrc: bool, stack: &str, term: &str, takes: &[usize], lims: &[Option<NonZeroUsize>], sh: &Sh) -> PollFn {
+    if vsrc {
+        let n = sh.borrow().n as u64;
+        let items: Vec<It> = (0..n).map(|j| It(j, false)).collect();
+        pipeline!(items.into_co_stream(), stack, term, takes, lims, sh)
+    } else {
+        let src = Src(Child::new(0, sh));
+        pipeline!(src.co(), stack, term, takes, lims, sh)
     }
 }
 
@@ -173,7 +184,7 @@ fn run_case(line: &str) -> String {
     let scripts: Vec<Vec<Step>> = hp.get(5).map(|s| s.split(';').map(|sc| if sc.is_empty() { vec![] } else { sc.split(',').map(parse_step).collect() }).collect()).unwrap_or_default();
     assert_eq!(scripts.len(), 1 + 2 * n, "script count in {line}");
     let sh: Sh = Rc::new(RefCell::new(Shared { wakers: vec![vec![]; 1 + 2 * n], parents: vec![], scripts, n }));
-    let mut comb: Option<PollFn> = Some(build(spec[1], spec[2], &takes, &lims, &sh));
+    let mut comb: Option<PollFn> = Some(build(spec[0] == "cov", spec[1], spec[2], &takes, &lims, &sh));
     let mut finished = false;
     for op in ops.split(' ').filter(|s| !s.is_empty()) {
         match op.as_bytes()[0] {
